@@ -502,7 +502,16 @@ func ruleContextKeys(c *chk.Ctx, d *dispatchModel) {
 		c.P.ExtCalls(d.checkAssign, func(ci ssa.CallInstruction) {
 			g := ci.Common().StaticCallee()
 			if g != nil && ir.RecvNamed(g) == c.M.Server && g.Signature.Results().Len() == 1 && isHandlerSig(c, g.Signature.Results().At(0).Type()) {
-				assign = ci
+				// (the assign function takes the context; a helper that merely picks a built-in does not)
+				takesCtx := false
+				for i := 0; i < g.Signature.Params().Len(); i++ {
+					if g.Signature.Params().At(i).Type().String() == "context.Context" {
+						takesCtx = true
+					}
+				}
+				if takesCtx || assign == nil {
+					assign = ci
+				}
 			}
 		})
 		ok := attach != nil && assign != nil && c.P.IDominates(attach, assign)
